@@ -336,7 +336,7 @@ Section Guarded.
 
   (* what the reader must see for a value *)
   Definition fc (v : val) : bytes :=
-    match v with VNull => str_NULL | VInt z => render_Z z | VStr s => s end.
+    match v with VNull => str_NULL | VInt z => render_Z z | VStr s => s | VRaw t => t end.
 
   Lemma replace_noop : forall old new s, old <> [] -> Forall (fun c => c <> hd 0 old) s ->
     replace_go old new s O = s.
@@ -354,7 +354,7 @@ Section Guarded.
   Lemma val_ok_content : forall t v, val_ok o t v = true -> v <> VNull ->
     content o v = fc v /\ plain v = fc v /\ forallb (safe o) (fc v) = true.
   Proof.
-    intros t v H Hn. destruct v as [|z|s]; [congruence| |]; destruct t; cbn in H; try discriminate.
+    intros t v H Hn. destruct v as [|z|s|raw]; [congruence| | |destruct t; discriminate]; destruct t; cbn in H; try discriminate.
     - apply andb_prop in H. destruct H as [_ H]. repeat split; assumption.
     - apply andb_prop in H. destruct H as [H _]. repeat split; try assumption.
       cbn. pose proof ltne as Hl. destruct (lt o) eqn:E; [reflexivity|]. cbn [is_nil]. rewrite <- E.
@@ -366,7 +366,7 @@ Section Guarded.
     (rest = [] \/ is_prefix (ft o) rest = true) ->
     pf o true (field o t v ++ rest) O false [] acc = pf o true rest O false (rev (fc v)) acc.
   Proof.
-    intros t v rest acc H Hrest. destruct v as [|z|s] eqn:Ev.
+    intros t v rest acc H Hrest. destruct v as [|z|s|raw] eqn:Ev; [| | |destruct t; discriminate].
     - cbn [field fc]. apply pf_null.
     - destruct (val_ok_content t (VInt z) H ltac:(discriminate)) as (Hc & Hp & Hs).
       unfold field. destruct (negb (enc_opt o) || is_text t).
@@ -412,15 +412,15 @@ Section Guarded.
 
   Lemma to_val_fc : forall t v, val_ok o t v = true -> to_val t (Some (fc v)) = Some v.
   Proof.
-    intros t v H. destruct v as [|z|s].
+    intros t v H. destruct v as [|z|s|raw]; [| | |destruct t; discriminate].
     - reflexivity.
-    - destruct t; cbn in H; [|discriminate]. apply andb_prop in H. destruct H as [Hz _].
+    - destruct t; cbn in H; try discriminate. apply andb_prop in H. destruct H as [Hz _].
       cbn [fc to_val]. destruct (render_Z_first z Hz) as (d & r & E & Hd).
       rewrite E. cbn [is_nil].
       assert (bytes_eq (d :: r) str_NULL = false) as Hn.
       { cbn. destruct (N.eqb_spec d 78); [lia|reflexivity]. }
       rewrite Hn, <- E. rewrite parse_int_render by exact Hz. reflexivity.
-    - destruct t; cbn in H; [discriminate|]. apply andb_prop in H. destruct H as [_ Hn].
+    - destruct t; cbn in H; try discriminate. apply andb_prop in H. destruct H as [_ Hn].
       apply negb_true_iff in Hn. cbn [fc to_val]. destruct s as [|c s]; [reflexivity|].
       cbn [is_nil]. rewrite Hn. reflexivity.
   Qed.
@@ -515,7 +515,7 @@ Section Guarded.
     apply mem_app_false in Hm. destruct Hm as [Hme _].
     assert (Forall (fun c => c <> hd 0 (lt o)) (enc o)) as Henc.
     { apply Forall_forall. intros c Hin E2. apply (mem_false_neq _ _ c Hme Hin). congruence. }
-    destruct v as [|z|s] eqn:Ev.
+    destruct v as [|z|s|raw] eqn:Ev; [| | |destruct t; discriminate].
     - apply null_marker_no_lt.
     - destruct (val_ok_content t (VInt z) H ltac:(discriminate)) as (Hc & Hp & Hs).
       unfold field. destruct (negb (enc_opt o) || is_text t).
@@ -549,10 +549,21 @@ Section Guarded.
     rewrite E1, E2, IH. reflexivity.
   Qed.
 
-  Theorem load_dump_id_guarded : forall tys rows,
-    Forall (fun r => row_ok o tys r = true) rows -> load o tys (dump o tys rows) = Loaded rows.
+  Lemma skipn_map_l : forall (A B : Type) (f : A -> B) n (l : list A), skipn n (map f l) = map f (skipn n l).
+  Proof. intros A B f n. induction n as [|n IH]; intros [|x l]; cbn; try reflexivity. apply IH. Qed.
+
+  Lemma Forall_skipn_l : forall (A : Type) (P : A -> Prop) n (l : list A), Forall P l -> Forall P (skipn n l).
   Proof.
-    intros tys rows H. unfold load.
+    intros A P n. induction n as [|n IH]; intros l H; [exact H|].
+    destruct l as [|x l]; [constructor|]. cbn. apply IH. inversion H; assumption.
+  Qed.
+
+  (* with IGNORE n LINES: the first n exported rows are dropped, the others come back *)
+  Theorem load_ignore_dump_guarded : forall n tys rows,
+    Forall (fun r => row_ok o tys r = true) rows ->
+    load_ignore n o tys (dump o tys rows) = Loaded (skipn n rows).
+  Proof.
+    intros n tys rows H. unfold load_ignore.
     assert (is_nil (lt o) = false) as Hnil.
     { pose proof ltne as Hl. destruct (lt o); [congruence|reflexivity]. }
     rewrite Hnil. cbn [andb].
@@ -566,7 +577,7 @@ Section Guarded.
     assert (map (fun b => b ++ lt o) bodies = map (dump_row o tys) rows) as Em.
     { unfold bodies. rewrite map_map. apply map_ext. intros r. unfold dump_row. rewrite app_assoc. reflexivity. }
     rewrite Ed at 2. rewrite split_lines_bodies.
-    - rewrite Em, load_tokens_rows by exact H. reflexivity.
+    - rewrite Em, skipn_map_l, load_tokens_rows by (apply Forall_skipn_l; exact H). reflexivity.
     - unfold bodies. apply Forall_forall. intros b Hin. apply in_map_iff in Hin. destruct Hin as (r & <- & Hin).
       apply Forall_app. split; [exact Hls|]. apply dump_fields_no_lt. rewrite Forall_forall in H. apply H. exact Hin.
     - (* fuel *)
@@ -576,6 +587,10 @@ Section Guarded.
         induction bs as [|b bs IHb]; [cbn; lia|]. cbn [map concat length]. rewrite !app_length. lia. }
       rewrite Ed. specialize (Hlen bodies). apply Nat.lt_succ_r. exact Hlen.
   Qed.
+
+  Theorem load_dump_id_guarded : forall tys rows,
+    Forall (fun r => row_ok o tys r = true) rows -> load o tys (dump o tys rows) = Loaded rows.
+  Proof. intros tys rows H. unfold load. rewrite (load_ignore_dump_guarded 0 tys rows H). reflexivity. Qed.
 End Guarded.
 
 (* ---------- the guard stated on strings only ---------- *)
@@ -620,7 +635,7 @@ Qed.
 
 Lemma val_ok_of_str : forall o t v, num_safe o = true -> val_ok_str o t v = true -> val_ok o t v = true.
 Proof.
-  intros o t v Hn H. destruct v as [|z|s]; destruct t; cbn in H |- *; try assumption; try discriminate.
+  intros o t v Hn H. destruct v as [|z|s|raw]; destruct t; cbn in H |- *; try assumption; try discriminate.
   rewrite H. cbn [andb]. apply forallb_forall. intros c Hin.
   unfold num_safe in Hn. rewrite forallb_forall in Hn. apply Hn.
   pose proof (render_Z_num z H) as F. rewrite Forall_forall in F. apply F. exact Hin.
